@@ -121,3 +121,6 @@ func VerifC07GlueCached(r *Resolver, name string) (v4, v6 []netip.Addr) {
 	}
 	return
 }
+
+// VerifC07SearchAddrs exposes searchAddrs.
+func VerifC07SearchAddrs(msg *dns.Msg) ([]netip.Addr, bool) { return searchAddrs(msg) }
